@@ -297,7 +297,12 @@ func planMixed(rng, trng *rand.Rand, sp *scriptSpec, pl *plan, e *env) *mixedPla
 		// one, and every member ends ≤ mixedEndMax — nobody can spend its 2 s
 		// budget waiting.
 		ahead := time.Duration(0)
-		off := func() time.Duration { return time.Duration(len(mb.seq)*mixedTrainGapMs) * time.Millisecond * time.Duration(b%2) }
+		off := func() time.Duration { // send offset of the next member
+			if mb.Shape != "many-clients" {
+				return 0
+			}
+			return time.Duration(len(mb.seq)*mixedTrainGapMs) * time.Millisecond
+		}
 		if mb.Shape == "many-clients" {
 			for w := 0; w < sp.Tweaks.IngressWorkers; w++ {
 				// primers: the pool is busy while the rest arrive; they run in
